@@ -198,6 +198,8 @@ def crawlVerdict (line : String) : String :=
 /-- closest-peers queries racing with the swap of a finished crawl: the table a query reads is the table of one crawl
     (`FullRT.swap_atomic`), so no answer is a mixture of two crawls -/
 def swapHandle (line : String) : String :=
-  if line.startsWith "swaprace" then "mixed=0" else "bad-op"
+  if line.startsWith "swaprace" then "mixed=0"
+  else if line.startsWith "bulkrace" then "panics=0"   -- `chunkSize` returns an error on an empty table: never a panic
+  else "bad-op"
 
 end KadDHT.Driver.C16
